@@ -51,6 +51,9 @@ pub fn run(h: &H) {
                 let (def, kind, touches) = GRID_OPS[(idx as usize / 8) % GRID_OPS.len()];
                 h.guard(idx, def, || grid_op(h, idx, def, kind, &touches, &mut rng));
             }
+            6 if (idx / 8) % 4 == 3 => {
+                h.guard(idx, "geodesic inverse on nearly antipodal pairs", || antipodal(h, idx, &mut rng));
+            }
             6 => {
                 let def = ONE_WAY[(idx as usize / 8) % ONE_WAY.len()];
                 h.guard(idx, def, || one_way(h, idx, def, &mut rng));
@@ -180,6 +183,32 @@ fn nan_propagation<C: Context>(h: &H, idx: u64, ctx: &C, op: OpHandle, d: D, def
         if cq > 1 {
             v(h, idx, &format!("count-exceeds-set-size/{name}/{}", d.name()), J::obj().set("definition", def).set("input", J::bits(&p)).set("count", cq));
             return;
+        }
+        // the same tuple as the second member of a set, behind the finite one: the outcome for a
+        // failed tuple must not be borrowed from its predecessor
+        {
+            let mut set = vec![Coor4D(*x), Coor4D(p)];
+            let cs = apply_set(ctx, op, d, &mut set);
+            h.eval(1);
+            let same = (0..4).all(|k| canon(set[1][k]) == canon(q[k]));
+            if !same || cs != 1 + cq {
+                v(
+                    h,
+                    idx,
+                    &format!("nan-tuple-depends-on-its-predecessor/{name}/{}", d.name()),
+                    J::obj()
+                        .set("what", "a tuple with NaN elements gives another result (or count) behind a finite tuple than alone")
+                        .set("definition", def)
+                        .set("direction", d.name())
+                        .set("finite_tuple", J::bits(x))
+                        .set("nan_tuple", J::bits(&p))
+                        .set("alone", J::bits(&q))
+                        .set("as_second_member", J::bits(&set[1].0))
+                        .set("count_alone", cq)
+                        .set("count_of_the_pair", cs),
+                );
+                return;
+            }
         }
         for i in 0..4 {
             if mask & (1 << i) == 0 {
@@ -450,6 +479,59 @@ fn grid_op(h: &H, idx: u64, def: &str, kind: &str, touches: &[bool; 4], rng: &mu
         }
         if invertible && predicates(h, idx, &ctx, op, D::I, def, name, &p, touches, false).is_none() {
             return;
+        }
+    }
+}
+
+/// The inverse geodesic problem between nearly antipodal points: where the library's own
+/// `geodesic_inv` reports that Vincenty's iteration ran out of rounds, the operator (plain and
+/// `reversible`) must overwrite the tuple with NaN and not count it; where it converged, the
+/// tuple is counted
+fn antipodal(h: &H, idx: u64, rng: &mut Rng) {
+    let (en, ell) = catalog::pick_ellps(rng, false);
+    let e = Ellipsoid::named(&en).unwrap_or(lib_ell(&ell));
+    let mut ctx = Minimal::new();
+    let defs = [format!("geodesic ellps={en}"), format!("geodesic reversible ellps={en}")];
+    let mut ops = Vec::new();
+    for d in &defs {
+        match ctx.op(d) {
+            Ok(op) => ops.push(op),
+            Err(_) => return,
+        }
+    }
+    h.distinct(mix(hash_str(&en), idx));
+    for _ in 0..24 {
+        let lat1 = rng.range(-60.0, 60.0) * if rng.chance(0.3) { 0.01 } else { 1.0 };
+        let lon1 = rng.range(-179.0, 179.0);
+        let lat2 = -lat1 + rng.range(-0.6, 0.6);
+        let mut lon2 = lon1 + 180.0 + rng.range(-0.6, 0.6);
+        if lon2 > 180.0 {
+            lon2 -= 360.0;
+        }
+        let from = Coor2D::geo(lat1, lon1);
+        let to = Coor2D::geo(lat2, lon2);
+        let direct = e.geodesic_inv(&from, &to);
+        let converged = direct[3] <= 990.0;
+        for (k, op) in ops.iter().enumerate() {
+            let x = [lat1, lon1, lat2, lon2];
+            let (y, c) = apply1(&ctx, *op, D::I, x);
+            h.eval(1);
+            h.class(&format!("geodesic-antipodal/{}/{}", if k == 0 { "plain" } else { "reversible" }, if converged { "converged" } else { "not-converged" }));
+            let ok = if converged { c == 1 && all_finite(&y) } else { c == 0 && y.iter().all(|v| v.is_nan()) };
+            if !ok {
+                v(
+                    h,
+                    idx,
+                    &format!("declared-failure-not-flagged/geodesic/{}/{}", if k == 0 { "plain" } else { "reversible" }, if converged { "converged-but-failed" } else { "non-convergence" }),
+                    J::obj()
+                        .set("definition", &defs[k])
+                        .set("input_lat_lon_lat_lon_deg", J::coords(&x))
+                        .set("iterations_reported_by_geodesic_inv", direct[3])
+                        .set("output", J::bits(&y))
+                        .set("count", c),
+                );
+                return;
+            }
         }
     }
 }
